@@ -30,13 +30,13 @@ VARIANTS = {
     "vals": lambda c, rng: dict(c, vals=[v + rng.choice([1.0, -2.0, 5.0]) if rng.random() < 0.6 else v for v in c["vals"]]),
     "labels": lambda c, rng: dict(c, labels=[(l + 1) % 3 for l in c["labels"]]),
     "func": lambda c, rng: dict(c, func={"sum": "nansum", "nanmax": "nanmin", "mean": "nanmean", "var": "std", "count": "sum", "argmax": "argmin",
-                                         "nanfirst": "nanlast", "prod": "sum", "min": "max"}[c["func"]]),
+                                         "nanfirst": "nanlast", "prod": "sum", "min": "max"}.get(c["func"], "nansum" if c["func"] == "sum" else "sum")),
     "ddof": lambda c, rng: dict(c, func="var", ddof=1) if c["func"] == "var" or rng.random() < 0.5 else dict(c, func="std", ddof=1),
     "q": lambda c, rng: dict(c, func="nanquantile", q=0.25, method="blockwise", engine="flox"),
     "min_count": lambda c, rng: dict(c, min_count=rng.choice([2, 3]), fill_value=float("nan")),
     "fill_value": lambda c, rng: dict(c, fill_value=-7.0, expected=[0, 1, 2, 5]),
     "dtype": lambda c, rng: dict(c, dtype="float32"),
-    "method": lambda c, rng: dict(c, method={"map-reduce": "cohorts", "cohorts": "map-reduce", None: "map-reduce"}[c["method"]]),
+    "method": lambda c, rng: dict(c, method={"map-reduce": "cohorts", "cohorts": "map-reduce", None: "map-reduce", "blockwise": "map-reduce"}.get(c["method"], "map-reduce")),
     "engine": lambda c, rng: dict(c, engine="flox" if c["engine"] == "numpy" else "numpy"),
     "sort": lambda c, rng: dict(c, sort=False, method="cohorts", expected=[2, 0, 1]),
     "reindex": lambda c, rng: dict(c, reindex=False, method="map-reduce"),
@@ -54,12 +54,11 @@ def build(cfg):
     lab = np.array(cfg["labels"])
     kw = {}
     fk = {}
-    if cfg.get("ddof") is not None:
+    # finalize kwargs only where the reduction takes them (a chain of variants may have changed func)
+    if cfg.get("ddof") is not None and cfg["func"] in ("var", "std", "nanvar", "nanstd"):
         fk["ddof"] = cfg["ddof"]
-    if cfg.get("q") is not None:
+    if cfg.get("q") is not None and cfg["func"] in ("nanquantile", "quantile"):
         fk["q"] = cfg["q"]
-        if cfg["func"] in ("nanquantile", "quantile"):
-            pass
     if cfg["func"] in ("nanquantile", "quantile") and "q" not in fk:
         fk["q"] = 0.5
     if fk:
